@@ -1,10 +1,10 @@
 ---------------------------- MODULE RepoQuery_Trace ----------------------------
-(* C08 judge.  Tr[1] is the header of one universe:
+(* C08 judge.  A trace is a sequence of universes; each starts with its header event (Tr[1] is one):
      {tid:-1, i:0, ev:"universe",
       members:[{c, p, v, r, truth:[leaf ids matching this package]}, ...],        versioned packages
       pairs:  [{c, p, v:0, r, truth:[leaf ids matching the unversioned object]}],  one per repo x listed (cat, pkg)
       absent0:[member indices that are not in their repository initially (added later)]}
-   {tid, i, ev:"add"|"remove", k}   the repository was told (notify_add_package / notify_remove_package)
+   {tid, i, ev:"add"|"remove", k, raised:BOOL}   the repository was told (notify_add_package / notify_remove_package)
                                     that member k was added / removed: the state variable absent follows
    Every other event is one real query:
      {tid, i, ev:"query", mode:"plain"|"asc"|"desc", unversioned:BOOL, stack:[repository indices],
@@ -14,10 +14,12 @@
    Clauses (prefix Pairs_ for unversioned queries, Stack_ for queries over > 1 repository):
      Missing / Spurious / Duplicate   the yielded packages are not exactly the answer, each once
      SorterOrder                      a sorted query is not in sorter order
-     Raised                           the query raised instead of answering                        *)
+     Raised                           the query raised instead of answering
+     Update_Raised                    notify_add_package of an absent member / notify_remove_package of a
+                                      held member raised (the update still counts as done: the backend changed) *)
 EXTENDS RepoQuery, TraceLib
-VARIABLES l, absent
-H == Tr[1]
+VARIABLES l, absent, hd      \* hd: position of the header of the universe being replayed
+H == Tr[hd]
 Pool(e) == IF e.unversioned THEN H.pairs ELSE H.members
 InRepo(e, m) == /\ \E k \in DOMAIN e.stack : e.stack[k] = m.r
                 /\ (e.filt.id = 0 \/ ((e.filt.id \in AsSet(m.truth)) = e.filt.keep))
@@ -27,8 +29,10 @@ Expected(e) == LET pool == Pool(e) IN
 Keys(e) == LET pool == Pool(e) IN [k \in DOMAIN e.got |-> <<pool[e.got[k]].c, pool[e.got[k]].p, pool[e.got[k]].v>>]
 
 Judge(e) ==
-    IF e.ev = "add" THEN (IF e.k \in absent THEN {} ELSE {"OutsideDomain"})
-    ELSE IF e.ev = "remove" THEN (IF e.k \in DOMAIN H.members /\ e.k \notin absent THEN {} ELSE {"OutsideDomain"})
+    IF e.ev = "universe" THEN {}
+    ELSE IF e.ev = "add" THEN (IF e.k \notin absent THEN {"OutsideDomain"} ELSE IF e.raised THEN {"Update_Raised"} ELSE {})
+    ELSE IF e.ev = "remove" THEN (IF e.k \notin DOMAIN H.members \/ e.k \in absent THEN {"OutsideDomain"}
+                                  ELSE IF e.raised THEN {"Update_Raised"} ELSE {})
     ELSE IF e.ev # "query" THEN {"UnknownEvent"}
     ELSE IF ~WellFormed(e.t) \/ \E k \in DOMAIN e.got : e.got[k] \notin DOMAIN Pool(e) THEN {"OutsideDomain"}
     ELSE LET pre == (IF e.unversioned THEN "Pairs_" ELSE "") \o (IF Len(e.stack) > 1 THEN "Stack_" ELSE "")
@@ -40,13 +44,15 @@ Judge(e) ==
                  \cup (IF NoDuplicates(e.got) THEN {} ELSE {pre \o "Duplicate"})
                  \cup (IF e.mode = "plain" \/ InSorterOrder(Keys(e), e.mode) THEN {} ELSE {pre \o "SorterOrder"})
 
-TraceInit == l = 1 /\ absent = AsSet(H.absent0)
+TraceInit == l = 1 /\ hd = 1 /\ absent = AsSet(Tr[1].absent0)
 TraceNext == /\ l < Len(Tr)
              /\ l' = l + 1
              /\ Report(Tr[l'].tid, Tr[l'].i, Judge(Tr[l']))
-             /\ absent' = CASE Tr[l'].ev = "add" -> AfterAdd(absent, Tr[l'].k)
+             /\ hd' = IF Tr[l'].ev = "universe" THEN l' ELSE hd
+             /\ absent' = CASE Tr[l'].ev = "universe" -> AsSet(Tr[l'].absent0)
+                             [] Tr[l'].ev = "add" -> AfterAdd(absent, Tr[l'].k)
                              [] Tr[l'].ev = "remove" -> AfterRemove(absent, Tr[l'].k)
                              [] OTHER -> absent
              /\ EndMark(l')
-TraceSpec == TraceInit /\ [][TraceNext]_<<l, absent>>
+TraceSpec == TraceInit /\ [][TraceNext]_<<l, absent, hd>>
 =========================================================================
